@@ -172,10 +172,7 @@ func H_C18_cancel_pending() {
 		<-readA
 		// wait until the connection for A exists (Cancel before that is a no-op), then cancel at any point
 		for {
-			d.conns.Lock()
-			_, ok := d.conns.value["A"]
-			d.conns.Unlock()
-			if ok {
+			if vfMapHas(d, "conns.value", "A") != 0 { // -1 (names not on this tree): do not wait
 				break
 			}
 			vfYield()
